@@ -35,7 +35,10 @@ def _prepare_env():
         os.environ["VQ_TMPDIR_SET"] = "1"
         if os.path.isdir("/dev/shm") and os.access("/dev/shm", os.W_OK):
             os.environ["TMPDIR"] = "/dev/shm"
+            os.environ["VQ_TMPBASE"] = "/dev/shm"
             need_reexec = True
+        else:
+            os.environ["VQ_TMPBASE"] = tempfile.gettempdir()
     os.environ["PYTHONDONTWRITEBYTECODE"] = "1"
     pp = os.environ.get("PYTHONPATH", "")
     want = REPO_SRC + os.pathsep + VERIF
@@ -49,6 +52,11 @@ def _prepare_env():
 
 def _worker_init():
     """Per-process setup (runs in every worker, before the property module is imported)."""
+    # private temp root per process: leak checks and clean-up never see other workers' files
+    base = os.environ.get("VQ_TMPBASE") or None
+    tmproot = tempfile.mkdtemp(prefix="vq-w%d-" % os.getpid(), dir=base)
+    tempfile.tempdir = tmproot
+    os.environ["TMPDIR"] = tmproot
     cfgdir = tempfile.mkdtemp(prefix="vq-cfg-")
     os.environ["QUANTEM_CONFIG"] = cfgdir
     import warnings
@@ -66,7 +74,7 @@ def _worker_init():
     qf = os.path.realpath(quantem.__file__)
     if not qf.startswith(os.path.realpath(REPO_SRC)):
         raise RuntimeError("quantem imported from %s, expected under %s" % (qf, REPO_SRC))
-    return cfgdir
+    return tmproot
 
 
 def worker(args):
